@@ -338,3 +338,74 @@ class GlobalReservationOnAnException:
         return (len(_trace) == 2 and _trace[0] == ("exception_of", location) and _trace[1][0] == "exception_set" and _trace[1][1] == location
                 and forall_int(lambda k: ((k in new) == (k in g_old)) and implies(k in g_old, new[k] == g_old[k] - (n if k == constraint.resource else 0)))
                 and implies(g_live, not exists_int(lambda k: k in new and new[k] < 0)))
+
+
+# ---- sequential.place: one constraint of its constraint loop (fragment, one contract per kind) --------------------------------------
+def _machine_has_chip(E, obj, args, kwargs, st, node):
+    return [(st, st.env["g_on_machine"], None)]
+
+
+def _apply_reserve(E, args, kwargs, st, node):
+    s = st.copy()
+    s.trace = ListV(s.trace.items + (("apply_reserve_resource_constraint", args[1]),))
+    return [(s, NONE)]
+
+
+@contract("rig/place_and_route/place/sequential.py::place@forbody:0", variant="location")
+class SequentialPlaceLocated:
+    """a vertex with a location constraint: refused with InvalidConstraintError exactly when the location is not a working chip of
+    the machine; otherwise it is placed on EXACTLY that chip, whose free resources shrink by exactly its needs (every other chip
+    untouched), and InsufficientResourceError is raised exactly when some resource of that chip is left negative"""
+    properties = ("C02",)
+    params = dict(constraint=TRec("LocationConstraint", vertex=TInt(), location=XY), placements=_TMap(TInt(), XY), machine=TRec("Machine"),
+                  vertices_resources=TRec("VerticesResources"), g_free=CHIPRES, g_need=RES, g_on_machine=TBool())
+    fragment_result = ("placements",)
+    fragment_head = "for constraint in constraints:"
+    modular = ("rig/place_and_route/place/utils.py::subtract_resources", "rig/place_and_route/place/utils.py::overallocated")
+    externals = {"Machine.__getitem__": _machine_getitem, "Machine.__setitem__": _machine_setitem, "Machine.__contains__": _machine_has_chip,
+                 "VerticesResources.__getitem__": _need_of_vertex, "def:apply_reserve_resource_constraint": _apply_reserve}
+    raises = {"InvalidConstraintError": None, "InsufficientResourceError": None}
+    options = {"no_merge": True}
+    assumptions = ["machine[chip] / machine[chip] = r are abstracted by the ghost map g_free (x, y, resource) -> amount; whether the location is a working "
+                   "chip is a ghost; vertices_resources[vertex] is the ghost map g_need"]
+
+    def native(constraint):
+        _skip()
+
+    def raises_InvalidConstraintError(g_on_machine, _trace):
+        return not g_on_machine
+
+    def raises_InsufficientResourceError(constraint, g_on_machine, g_need, g_free):
+        c = constraint.location
+        return g_on_machine and exists_int(lambda r: (c[0], c[1], r) in g_free and g_free[(c[0], c[1], r)] - (g_need[r] if r in g_need else 0) < 0)
+
+    def ensures_placed_on_its_location_which_shrinks_by_its_needs(constraint, g_on_machine, g_need, old_g_free, g_free_post, old_placements, result):
+        c = constraint.location
+        v = constraint.vertex
+        return (g_on_machine and v in result[0] and result[0][v] == c
+                and forall_int(lambda u: implies(u != v, (u in result[0]) == (u in old_placements) and implies(u in result[0], result[0][u] == old_placements[u])))
+                and forall_int(lambda r: ((c[0], c[1], r) in g_free_post) == ((c[0], c[1], r) in old_g_free)
+                               and implies((c[0], c[1], r) in g_free_post,
+                                           g_free_post[(c[0], c[1], r)] == old_g_free[(c[0], c[1], r)] - (g_need[r] if r in g_need else 0)
+                                           and g_free_post[(c[0], c[1], r)] >= 0))
+                and forall_int(lambda x, y, r: implies(not (x == c[0] and y == c[1]),
+                                                       ((x, y, r) in g_free_post) == ((x, y, r) in old_g_free)
+                                                       and implies((x, y, r) in g_free_post, g_free_post[(x, y, r)] == old_g_free[(x, y, r)]))))
+
+
+@contract("rig/place_and_route/place/sequential.py::place@forbody:0", variant="reservation")
+class SequentialPlaceReservation:
+    """a reservation is handed to apply_reserve_resource_constraint (its own contracts) and places nothing"""
+    properties = ("C02",)
+    params = dict(constraint=TRec("ReserveResourceConstraint", resource=TInt()), placements=_TMap(TInt(), XY), machine=TRec("Machine"),
+                  vertices_resources=TRec("VerticesResources"), g_free=CHIPRES, g_need=RES, g_on_machine=TBool())
+    fragment_result = ("placements",)
+    fragment_head = "for constraint in constraints:"
+    externals = SequentialPlaceLocated.externals
+
+    def native(constraint):
+        _skip()
+
+    def ensures_applied_and_nothing_placed(constraint, old_placements, result, _trace):
+        return (len(_trace) == 1 and _trace[0] == ("apply_reserve_resource_constraint", constraint)
+                and forall_int(lambda u: (u in result[0]) == (u in old_placements) and implies(u in result[0], result[0][u] == old_placements[u])))
